@@ -12,6 +12,20 @@ struct Pair {
     dfa: Dfa,
 }
 
+/// where a string leaves (or ends in) the language: state of the minimal automaton + offending byte class
+pub fn leave_key(dfa: &Dfa, s: &[u8]) -> String {
+    let mut st = dfa.start;
+    for b in s {
+        let next = dfa.step(st, *b);
+        if next == DEAD {
+            let sym = dfa.byte_class[*b as usize];
+            return format!("dies-in-q{st}-on-class-of-{}", show_bytes(&[dfa.reps[sym][0]], 4));
+        }
+        st = next;
+    }
+    format!("ends-in-q{st}")
+}
+
 fn judge(rep: &mut Report, p: &Pair, s: &[u8], class: &str) {
     rep.evaluations += 1;
     let expect = p.dfa.matches(s);
@@ -23,22 +37,7 @@ fn judge(rep: &mut Report, p: &Pair, s: &[u8], class: &str) {
     }
     if got != expect {
         let kind = if got { "accepts-non-member" } else { "rejects-member" };
-        // where the string leaves (or ends in) the language: state of the minimal automaton + offending byte class
-        let mut st = p.dfa.start;
-        let mut key = String::new();
-        for (i, b) in s.iter().enumerate() {
-            let next = p.dfa.step(st, *b);
-            if next == DEAD {
-                let sym = p.dfa.byte_class[*b as usize];
-                key = format!("dies-in-q{st}-on-class-of-{}", show_bytes(&[p.dfa.reps[sym][0]], 4));
-                let _ = i;
-                break;
-            }
-            st = next;
-        }
-        if key.is_empty() {
-            key = format!("ends-in-q{st}");
-        }
+        let key = leave_key(&p.dfa, s);
         rep.violation(
             &format!("pattern/{kind}"),
             &format!("C19:pattern/{kind}:{}:{key}", p.regex),
